@@ -472,12 +472,13 @@ def _find_call_arrow(rhs):
 
 # --------------------------------------------------------------------------- functions
 class Function:
-    __slots__ = ('name', 'params', 'ret', 'locals', 'blocks', 'raw', 'argcount', 'debug', 'header')
+    __slots__ = ('name', 'params', 'ret', 'locals', 'blocks', 'raw', 'argcount', 'debug', 'header', '_cursor_locals', '_parsed')
 
     def __init__(self):
         self.locals = {}
         self.blocks = {}
         self.debug = {}
+        self._parsed = {}
 
 
 _FN_HDR = re.compile(r'^fn (.*)\((.*)\) -> (.*) \{$')
@@ -493,9 +494,13 @@ class MirDump:
         self.fn_index = {}      # full header name -> (start_line, end_line)
         self.const_index = {}
         self._cache = {}
+        self.const_literals = {}
         i, n = 0, len(self.lines)
         while i < n:
             ln = self.lines[i]
+            m1 = re.match(r'^const ([^:]+): ([^=]+) = const (.*);$', ln)
+            if m1:
+                self.const_literals[m1.group(1)] = (m1.group(3), m1.group(2).strip())
             if ln.startswith(('fn ', 'const ', 'static ')) and ln.endswith('{'):
                 j = i + 1
                 while j < n and self.lines[j] != '}':
@@ -593,16 +598,13 @@ class MirDump:
         return f
 
 
-_stmt_cache = {}
-
-
 def parsed_block(fn, bb):
-    """Parse the statements of block bb of fn (memoised)."""
-    key = (id(fn), bb)
-    r = _stmt_cache.get(key)
+    """Parse the statements of block bb of fn (memoised on the function object)."""
+    cache = fn._parsed
+    r = cache.get(bb)
     if r is None:
         r = [parse_statement(s) for s in fn.blocks[bb]]
-        _stmt_cache[key] = r
+        cache[bb] = r
     return r
 
 
